@@ -233,6 +233,14 @@ class bptk():
         if(not "lock" in state.keys()):
             state["lock"] = False
         self.session_state = state
+        # the settings the session was begun with are held by the scenario objects, not by the session state:
+        # a restored session applies them to its own scenarios again
+        settings = state.get("settings") or {}
+        for _, manager in self.scenario_manager_factory.scenario_managers.items():
+            if manager.name in settings and manager.name in state.get("scenario_managers", []):
+                for scenario, scenario_object in manager.scenarios.items():
+                    if scenario in settings[manager.name] and scenario in state.get("scenarios", []) and hasattr(scenario_object, "configure_settings"):
+                        scenario_object.configure_settings(settings[manager.name][scenario])
 
     def lock(self):
         if self.session_state is not None:
